@@ -74,13 +74,12 @@ def cache_func(label: str, operators: dict, values: dict = None, template: str =
             for cached_name, cached_op in op_cache[h]:
                 if op_hash == hash(cached_op["operator"]) and cached_name not in checked_ops:
                     changed_labels[name] = cached_name
-                    for old_name, new_name in changed_labels.items():
-                        try:
-                            values[new_name] = values.pop(old_name)
-                        except (AttributeError, KeyError):
-                            pass
                     checked_ops.append(cached_name)
                     break
+
+        # rename the operator keys of the values once, simultaneously (a chain a->b, b->c must not be applied twice)
+        if values and changed_labels:
+            values = {changed_labels.get(key, key): val for key, val in values.items()}
 
         # extend cached node
         var_ranges = node.extend(NodeIR(label, operators=op_graph, values=values, template=template), **kwargs)
